@@ -224,7 +224,7 @@ pub fn job_c04(out_dir: &str, tier: &str, seed: u64) {
     let quick = tier == "quick";
     let mut rng = Rng::new(seed ^ 0xC04);
     let mut sh = Shards::new(out_dir, "c04", 600_000);
-    let npairs = if quick { 6000 } else { 200000 };
+    let npairs = if quick { 14000 } else { 200000 };
     let mut n = 0usize;
     let mut unparsable = 0usize;
     for case in 0..npairs {
